@@ -238,6 +238,39 @@ type taskEnv struct {
 	swStart map[int][2]time.Duration
 	maps    map[int]map[string]string // caller-owned tag maps by op index
 	calls   map[int]instrument.Call
+	// the task's own reusable bucket slices (hist ops with n=-1): the caller
+	// overwrites one backing array with each new specification, as code that
+	// builds its bucket sets in a scratch slice does
+	bufV   tally.ValueBuckets
+	bufD   tally.DurationBuckets
+	reused int
+}
+
+// reuseBuf writes the specification into the task's scratch slice (same backing
+// array as long as the length fits) and returns that slice.
+func (te *taskEnv) reuseBuf(b *BucketSpec) tally.Buckets {
+	if b.Dur {
+		if cap(te.bufD) < len(b.Durs) {
+			te.bufD = make(tally.DurationBuckets, len(b.Durs), len(b.Durs)+4)
+		} else {
+			te.reused++
+		}
+		te.bufD = te.bufD[:len(b.Durs)]
+		for i, d := range b.Durs {
+			te.bufD[i] = time.Duration(d)
+		}
+		return te.bufD
+	}
+	if cap(te.bufV) < len(b.Bits) {
+		te.bufV = make(tally.ValueBuckets, len(b.Bits), len(b.Bits)+4)
+	} else {
+		te.reused++
+	}
+	te.bufV = te.bufV[:len(b.Bits)]
+	for i, x := range b.Bits {
+		te.bufV[i] = f64from(x)
+	}
+	return te.bufV
 }
 
 func objPtr(x interface{}) uintptr {
@@ -343,6 +376,12 @@ func (te *taskEnv) exec(op *Op, rec *OpRec) {
 		case "hist":
 			if op.N > 0 && op.N <= len(env.sharedSpecs) {
 				caller = env.sharedSpecs[op.N-1]
+			} else if op.N == -1 && op.B != nil && !op.B.Nil {
+				n0 := te.reused
+				caller = te.reuseBuf(op.B)
+				if te.reused > n0 {
+					rec.Extra = "caller-slice-reused"
+				}
 			} else {
 				caller = op.B.Buckets()
 			}
